@@ -36,7 +36,8 @@ def tie_b(ctx):
 
 def configs(tier):
     if tier == "quick":
-        return [("native", "", "plain"), ("noti", "", "plain")]
+        return [("native", "", "plain"), ("noti", "", "plain"),
+                ("native", "", "plain", {"HX_FILL": "255"})]      # output buffers start all-ones (a non-canonical encoding) instead of stack leftovers
     return [(v, "", "plain") for v in vcore.VARIANTS]
 
 
